@@ -55,8 +55,7 @@ def specDirected (a : GraphArgs) : Bool := a.directed.getD (!symmetricSpec (spec
 def shownSpec (a : GraphArgs) (i j : Nat) : Bool := !specDirected a || a.pos.getD i (0, 0) != a.pos.getD j (0, 0)
 def specOrder (a : GraphArgs) : List Nat := a.nodeOrder.getD (List.range (specN a))
 
-/-- expected content of `visualize_graph` on a non-degenerate canvas (`width` or `height` non-zero, `scale ≠ 0`),
-    all stored weights `≥ 0` -/
+/-- expected content of `visualize_graph` on a non-degenerate canvas (`width` or `height` non-zero, `scale ≠ 0`) -/
 def expectedGraph (a : GraphArgs) : Expected :=
   { circles := ((specOrder a).filter fun i => !isPie a.probs i).length
     sectors := ((specOrder a).filter fun i => isPie a.probs i).length * ncolsOf a.probs
@@ -70,7 +69,7 @@ def expectedGraph (a : GraphArgs) : Expected :=
       | none => []
       | some names => (List.range (specN a)).map fun i => plainOf (names.getD i []) }
 
-/-- expected content of `visualize_bigraph`, all stored weights `≥ 0` -/
+/-- expected content of `visualize_bigraph` -/
 def expectedBigraph (a : BigraphArgs) : Expected :=
   let rows := List.range a.nRow
   let cols := List.range a.nCol
@@ -148,7 +147,9 @@ def joins (directed : Bool) (ci cj : PyStr × PyStr × PyStr) (path : List PyStr
     m == py!"M" && x1 == ci.1 && y1 == ci.2.1 &&
     (if directed then
       match parseDec x2, parseDec y2, parseDec cj.1, parseDec cj.2.1, parseDec cj.2.2 with
-      | some a, some b, some c, some d, some r => (a - c) * (a - c) + (b - d) * (b - d) ≤ (r + 2) * (r + 2)
+      | some a, some b, some c, some d, some r =>
+        let r := if r < 0 then -r else r        -- signed node weights can give a negative printed radius
+        (a - c) * (a - c) + (b - d) * (b - d) ≤ (r + 2) * (r + 2)
       | _, _, _, _, _ => false
      else x2 == cj.1 && y2 == cj.2.1)
   | _ => false
